@@ -138,7 +138,9 @@ def fm_classify(case, reason, line):
             return "nil-interface-hop"
         if "FieldByName on zero Value" in msg:
             return "nil-pointer-hop"
-        if "convertTo failed when must succeed" in msg and "mismatched type" in msg:
+        if "convertTo failed when must succeed" in msg and ("mismatched type" in msg or "from a zero reflect.Value" in msg):
+            # a value that its own run-time checker would have refused reached the converter: the checker tested it against the
+            # LAST mapping's target type
             return "stale-closure"
         if "runtime check failed for mapping" in msg:
             return "stale-closure"
